@@ -25,6 +25,8 @@ open VaxisModel.Gen.TermModes VaxisModel.Model.Emu
 structure Frame where
   e : Emu
   vars : Nat → Int
+  /-- the grapheme being printed (print() only) -/
+  g : G := []
 
 def Frame.get (s : Frame) : Loc → Int
   | .curRow => s.e.cur.row
@@ -154,6 +156,21 @@ def evalG (pm : List Param) (s : Frame) : Stmt → List Int → Grid → M (Grid
   | .touchRow r, lvs, g => do
     let _ ← getI g (evalEx pm s lvs r)
     .ok (g, .norm)
+  | .setWrapped r c, lvs, g => do
+    let g' ← modCell g (evalEx pm s lvs r) (evalEx pm s lvs c) (fun x => { x with wrapped := true })
+    .ok (g', .norm)
+  | .putGlyph r c w, lvs, g => do
+    let row ← getI g (evalEx pm s lvs r)
+    let row' ← setI row (evalEx pm s lvs c) { g := s.g, w := (evalEx pm s lvs w).toNat, st := s.e.cur.st }
+    let g' ← setI g (evalEx pm s lvs r) row'
+    .ok (g', .norm)
+  | .setSpace r c, lvs, g => do
+    let g' ← modCell g (evalEx pm s lvs r) (evalEx pm s lvs c) (fun x => { x with g := [32] })
+    .ok (g', .norm)
+  | .setPen r c, lvs, g => do
+    let g' ← modCell g (evalEx pm s lvs r) (evalEx pm s lvs c) (fun x => { x with st := s.e.cur.st })
+    .ok (g', .norm)
+  | .prim _, _, g => .ok (g, .norm)          -- excluded by `wf`
   | .assign _ _, _, g => .ok (g, .norm)      -- excluded by `wf`
   | .setLastCol _, _, g => .ok (g, .norm)    -- excluded by `wf`
   | .call _ _, _, g => .ok (g, .norm)        -- excluded by `wf`
@@ -189,11 +206,22 @@ def evalS (pm : List Param) : Stmt → Frame → M (Frame × Sig)
     let e' ← callFn f (match arg with | some x => evalEx pm s [] x | none => 0) s.e
     .ok ({ s with e := e' }, .norm)
   | .unknown _, s => .ok (s, .norm)
+  | .prim .decSpecial, s =>
+    .ok ({ s with g := match s.g with
+                       | [b] => if s.e.cs.desig s.e.cs.sel = 1 then (lookupSpecial b).getD s.g else s.g
+                       | _ => s.g }, .norm)
+  | .prim .singleShift, s =>
+    .ok ((if s.e.cs.ss then { s with e := { s.e with cs := { s.e.cs with sel := s.e.cs.saved } } } else s), .norm)
   | st, s => do
     let r ← evalG pm s st [] s.e.active
     .ok ({ s with e := s.e.setActive r.1 }, .norm)
 
 def initFrame (e : Emu) (args : List Int) : Frame := { e := e, vars := fun k => args.getD k 0 }
+
+/-- print(seq): the grapheme and `seq.Width` (local 0) -/
+def evalPrint (b : Body) (g : G) (w : Int) (e : Emu) : M Emu := do
+  let r ← evalS [] b.stmt { e := e, vars := fun k => [w].getD k 0, g := g }
+  .ok r.1.e
 
 /-- Run a translated body: `args` are the int parameters (`ps`, `n`), `pm` the parameter list of
     the functions that take `[][]int`. -/
@@ -227,6 +255,10 @@ def loopWf (allowRet : Bool) : Stmt → Bool
   | .cellCopy _ _ _ _ => true
   | .cellZero _ _ => true
   | .touchRow _ => true
+  | .setWrapped _ _ => true
+  | .putGlyph _ _ _ => true
+  | .setSpace _ _ => true
+  | .setPen _ _ => true
   | _ => false
 
 /-- function level; `tail` = nothing follows this statement in the function -/
